@@ -1,5 +1,128 @@
-(** C01 — JSON handler: every record is one valid, faithful JSON line.  (statements are added as the proofs land) *)
+(** C01 — JSON handler: every record is one valid, faithful JSON line.
+
+    Model: [Model/LoggerJson.v] (json_handler.go, colour off, function by function).
+    Specification: the strict RFC 8259 parser of [Lib/Json.v] and [expected] of
+    [Model/LoggerJsonSpec.v].  All statements are for ALL byte strings, ALL attribute trees (any
+    depth, any mix of keyed / inline / empty groups anywhere), ALL derivation chains, the five
+    levels, source on or off; no bounds.  [wf_chain] / [wf_record] are boolean and say only what
+    the standard-library oracles promise: the time texts are printable ASCII without quote and
+    backslash, an encoding/json result is exactly one JSON value without newline. *)
 From Coq Require Import List NArith ZArith Bool.
 Import ListNotations.
-From Glb Require Import Lib.Utf8 Lib.JsonDec Lib.Json Model.LoggerJson Model.LoggerJsonSpec.
+From Glb Require Import Lib.Utf8 Lib.JsonDec Lib.Json Model.LoggerJson Model.LoggerJsonSpec Model.LoggerJsonPinned.
+From Glb Require Import Proofs.JsonDecP Proofs.JsonP Proofs.LoggerJsonEscP Proofs.LoggerJsonP Proofs.LoggerJsonPinnedP.
 Open Scope N_scope.
+
+(** THE property. *)
+Theorem C01_json_line_faithful : forall chain rec,
+  wf_chain chain = true -> wf_record rec = true ->
+  exists body, handle (derive chain) rec = body ++ [10]
+            /\ ~ In 10 body
+            /\ parse_object body = Some (JObj (expected chain rec), []).
+Proof. exact json_line_faithful. Qed.
+Print Assumptions C01_json_line_faithful.
+
+(** Stage 1: appendJsonString is inverted by the strict string scanner up to U+FFFD per invalid byte,
+    for every byte string and every continuation. *)
+Theorem C01_escape_roundtrip : forall s r,
+  parse_string_body (append_json_string s ++ 34 :: r) = Some (sanitize s, r).
+Proof. exact escape_roundtrip. Qed.
+Print Assumptions C01_escape_roundtrip.
+
+Theorem C01_escape_no_newline : forall s, ~ In 10 (append_json_string s).
+Proof. exact append_json_string_no_newline. Qed.
+Print Assumptions C01_escape_no_newline.
+
+(** Stage 2 in prefix-extension form: the printing of ANY well-formed attribute list, continued by
+    anything that starts with [,] or [}], is read by the member parser (in the state matching addSep)
+    as exactly [exp_attrs l] (inline groups spliced, keyed groups without members omitted), after which
+    the parser stands in front of the continuation; addSep becomes true exactly when a member was written. *)
+Theorem C01_members_print_parse : forall l, wf_attrs l = true ->
+  forall sep o sep', append_json_attrs l sep = (o, sep') ->
+  forall f n K, (length o <= f)%nat -> (sep' = true -> dh K) ->
+    pstate sep (parse_value f) (n + length (exp_attrs l)) (o ++ K)
+    = bindp (exp_attrs l) (pstate sep' (parse_value f) n K).
+Proof. intros l Hwf sep o sep' E. exact (proj2 (proj2 (proj2 (proj2 (attrs_print l Hwf sep o sep' E))))). Qed.
+Print Assumptions C01_members_print_parse.
+
+Theorem C01_addsep_tracks_members : forall l, wf_attrs l = true ->
+  forall sep o sep', append_json_attrs l sep = (o, sep') -> sep' = sep || nonempty (exp_attrs l).
+Proof. intros l Hwf sep o sep' E. exact (proj1 (proj2 (attrs_print l Hwf sep o sep' E))). Qed.
+Print Assumptions C01_addsep_tracks_members.
+
+(** Stage 3: what With / WithGroup accumulate in [preformatted], [nOpenGroups], [addSep] is the
+    recursive chain printer, for every tail. *)
+Theorem C01_chain_invariant : forall c h inner T,
+  pre (derive_from h c) ++ fst (append_json_attrs inner (addsep (derive_from h c)))
+    ++ repeat 125 (nopen (derive_from h c)) ++ T
+  = pre h ++ fst (chain_out c inner (addsep h)) ++ repeat 125 (nopen h) ++ T.
+Proof. exact chain_invariant. Qed.
+Print Assumptions C01_chain_invariant.
+
+(** The numbers in the line denote the logged integers. *)
+Theorem C01_int_text_faithful : forall z n, of_dec_z (to_dec_z z) = z /\ of_dec (to_dec n) = n.
+Proof. intros z n. split; [exact (of_dec_z_to_dec_z z) | exact (of_dec_to_dec n)]. Qed.
+Print Assumptions C01_int_text_faithful.
+
+(** An embedded encoding/json result keeps its meaning in front of every continuation (prefix extension). *)
+Theorem C01_raw_prefix_extension : forall b j K f,
+  parse_exact b = Some j -> dh K -> (length b <= f)%nat -> parse_value f (b ++ K) = Some (j, K).
+Proof. exact parse_exact_embedded. Qed.
+Print Assumptions C01_raw_prefix_extension.
+
+(** The REPAIRED defect (fix 4bd39fe), kept as a refutation of the pinned appendJsonAttr. *)
+Theorem C01_old_attr_refuted :
+  exists r, wf_record r = true /\ parse_object (strip_nl (old_handle r)) = None.
+Proof. exact old_attr_refuted. Qed.
+Print Assumptions C01_old_attr_refuted.
+
+(** ** Non-vacuity: hostile inputs satisfy the hypotheses and the conclusion computes. *)
+Definition hostile_chain : list deriv :=
+  [ DAttrs [([97; 34; 10], VBool true); ([], VGroup [])];                 (* key with quote and newline; empty inline group *)
+    DGroup [103; 255];                                                     (* group name with an invalid byte *)
+    DAttrs [([], VGroup [([], VGroup [])])];                               (* With(...) of nothing, right after WithGroup *)
+    DGroup [104];
+    DAttrs [([101], VGroup []); ([120], VRaw (RErr [98; 97; 100; 34]))] ]. (* empty keyed group (omitted); encoding error *)
+
+Definition hostile_record : record :=
+  mkR [50; 48; 50; 52; 45; 48; 49; 45; 48; 49; 84; 48; 48; 58; 48; 48; 58; 48; 48; 90] LError
+      (Some ([97; 47; 98; 46; 103; 111], 42%Z))
+      [109; 0; 34; 92; 226; 128; 168; 237; 160; 128]
+      [ ([107], VInt (-9223372036854775808));
+        ([], VGroup []);
+        ([117], VUint 18446744073709551615);
+        ([], VGroup [([105], VStr [192; 175]); ([], VGroup []); ([106], VDur 1)]);
+        ([114], VRaw (ROk [123; 34; 97; 34; 58; 91; 49; 44; 50; 46; 53; 101; 43; 49; 44; 110; 117; 108; 108; 93; 125]));
+        ([226; 128; 169], VGroup [([], VGroup [])]);
+        ([116], VTime [48; 48; 48; 49; 45; 48; 49; 45; 48; 49; 84; 48; 48; 58; 48; 48; 58; 48; 48; 90]);
+        ([122], VErrStr [10; 13; 9]); ([], VAnsi [27]) ].
+
+Example C01_hypotheses_satisfiable : wf_chain hostile_chain = true /\ wf_record hostile_record = true.
+Proof. split; vm_compute; reflexivity. Qed.
+
+Example C01_hostile_line :
+  let w := handle (derive hostile_chain) hostile_record in
+  parse_object (removelast w) = Some (JObj (expected hostile_chain hostile_record), []) /\ last w 0 = 10.
+Proof. vm_compute. split; reflexivity. Qed.
+
+(** the object really is nested and non-trivial: 4 fixed members, then a; g{ h{ x k u i j r t z (empty key) } } —
+    the keyed groups without members ([e], and U+2029 holding only an empty inline group) are omitted *)
+Example C01_hostile_shape :
+  match expected hostile_chain hostile_record with
+  | [_; _; (_, JObj [_; _]); _; (_, JTrue); (_, JObj [(_, JObj ms)])] => length ms = 9%nat
+  | _ => False
+  end.
+Proof. vm_compute. reflexivity. Qed.
+
+(** the strict parser rejects what it must *)
+Example C01_parser_is_strict :
+  map parse_json
+      [ [123; 34; 97; 34; 58; 49; 44; 125];            (* {"a":1,}  trailing comma *)
+        [123; 34; 97; 34; 58; 49; 44; 44; 34; 98; 34; 58; 50; 125];  (* {"a":1,,"b":2} *)
+        [34; 10; 34];                                   (* raw newline in a string *)
+        [34; 255; 34];                                  (* invalid UTF-8 *)
+        [34; 92; 117; 100; 56; 48; 48; 34];             (* lone surrogate escape *)
+        [48; 49];                                       (* leading zero *)
+        [123; 125; 120] ]                               (* trailing garbage *)
+  = [None; None; None; None; None; None; None].
+Proof. vm_compute. reflexivity. Qed.
